@@ -25,38 +25,18 @@ def P(q_cases, t_cases, q_shards=4, t_shards=16, size=100, q_secs=60, t_secs=600
 PROPS = {}
 NOT_YET = {}
 
-PROPS["C13"] = dict(
-    level="exploration",
-    level_text=("Generated-input search with explicit oracles: a construction oracle (text rendered from a known value tree must "
-                "decode to that tree), a round-trip oracle through an independent strict RFC 8259 validator, metamorphic "
-                "mutation/limit probes and a coverage-guided fuzzer with the round-trip oracle inside the target, all under "
-                "ASan+UBSan on exact-size buffers. Exploration is the right level: the property quantifies over an infinite "
-                "input language; this finds counterexamples and never proves absence."),
-    level_note=("Trusts the reference renderer/validator (harness/common/ref_json.hpp, cross-checked against Python json), "
-                "the C library's strtod/printf, and that sanitizers expose undefined behaviour on the executed inputs."),
-    technique="property-based testing (rapidcheck, construction + round-trip oracles) and libFuzzer with in-target oracle",
-    rule=("construct: random value tree (null/bool/int64 incl. extremes/finite doubles incl. subnormals and 17-digit values/"
-          "strings over all of Unicode/arrays/objects with duplicate keys) rendered to RFC 8259 text with random whitespace, "
-          "escape forms (short, \\uXXXX upper/lower, surrogate pairs, \\/) and number forms (positional, scientific, shifted "
-          "exponent); roundtrip: programmatic values through dump()/dump(2)/sorted/serialize(opts); mutate: byte-level "
-          "mutations of rendered texts with random limits; limits: nesting/items/members/string length around each limit; "
-          "fuzz: libFuzzer on Json::parse with limits from a prefix. Non-trivial = text with >=1 escape, a non-integer "
-          "number or nesting >=2 (construct/roundtrip), any mutated text (mutate), any limit probe (limits), any input the "
-          "parser accepted (fuzz); distinct by hash of the text."),
-    assumptions=["the reference renderer/validator in harness/common/ref_json.hpp is itself RFC 8259-correct (cross-checked "
-                 "against Python's json in the thorough tier)",
-                 "strtod/printf of the C library are correctly rounded"],
-    units=[
-        pbt("c13_json", "harness/c13_json.cpp", dict(
-            construct=P(6000, 60000, 4, 16),
-            roundtrip=P(6000, 60000, 4, 16),
-            mutate=P(8000, 80000, 4, 16),
-            limits=P(3000, 20000, 2, 4),
-        )),
-        fuzz("fuzz_json", "harness/fuzz_json.cpp", dict(runs=400000, procs=4, max_len=512, max_seconds=45),
-             dict(runs=30000000, procs=16, max_len=2048, max_seconds=900), corpus="corpus/C13"),
-    ],
-)
+
+def _load():
+    import glob
+    import importlib.util
+    import os
+    here = os.path.dirname(os.path.abspath(__file__))
+    for path in sorted(glob.glob(os.path.join(here, "props", "C*.py"))):
+        pid = os.path.basename(path)[:-3]
+        spec = importlib.util.spec_from_file_location("props_" + pid, path)
+        mod = importlib.util.module_from_spec(spec)
+        spec.loader.exec_module(mod)
+        PROPS[pid] = mod.SPEC
 
 
 def unit_by_name(name):
@@ -65,3 +45,8 @@ def unit_by_name(name):
             if u["name"] == name:
                 return u
     raise KeyError(name)
+
+
+import sys as _sys
+_sys.modules.setdefault("checks", _sys.modules[__name__])
+_load()
